@@ -126,13 +126,14 @@ type vmRun struct {
 	out hostapi.Outcome
 }
 
-var onThread bool    // set per run (single-threaded worker)
-var mainContext bool // with onThread: the main state keeps a context of its own that is never done
-var bare bool        // the program's entry is the first call ever made on the state
-var bgFirst bool     // the state starts under context.Background(); the program's reattach() attaches the simulated one
+var onThread bool     // set per run (single-threaded worker)
+var mainContext bool  // with onThread: the main state keeps a context of its own that is never done
+var threadCancel bool // with mainContext: the thread keeps its derived child context and is cancelled through NewThread's cancel function
+var bare bool         // the program's entry is the first call ever made on the state
+var bgFirst bool      // the state starts under context.Background(); the program's reattach() attaches the simulated one
 
 func exec(proto *lua.FunctionProto, o lua.Options, withCtx bool, kind int, at int64, maxSteps int64) *vmRun {
-	h := hostapi.NewHost(hostapi.Options{LuaOptions: o, Kind: kind, At: at, MaxSteps: maxSteps, WithContext: withCtx, OnThread: onThread, MainContext: mainContext, Bare: bare, BackgroundFirst: bgFirst})
+	h := hostapi.NewHost(hostapi.Options{LuaOptions: o, Kind: kind, At: at, MaxSteps: maxSteps, WithContext: withCtx, OnThread: onThread, MainContext: mainContext, Bare: bare, BackgroundFirst: bgFirst, ThreadCancelFunc: threadCancel})
 	if !bare {
 		// math and channel are needed by some templates
 		h.L.Push(h.L.NewFunction(lua.OpenMath))
@@ -210,6 +211,7 @@ func (e *Engine) Run(t *core.Tape, cfg *core.Config, st *core.Stats) *core.Viola
 		st.Probe("entry_is_first_call_on_the_state")
 	}
 	mainContext = false
+	threadCancel = false
 	if onThread {
 		st.Probe("context_on_non_main_thread")
 		name += "@thread"
@@ -218,6 +220,11 @@ func (e *Engine) Run(t *core.Tape, cfg *core.Config, st *core.Stats) *core.Viola
 			mainContext = true
 			name += "+mainctx"
 			st.Probe("thread_context_over_inherited_context")
+			if t.Choose(2) == 0 {
+				threadCancel = true
+				name += "+cancelfunc"
+				st.Probe("thread_cancelled_through_its_cancel_function")
+			}
 		}
 	}
 	o := hostapi.SmallOptions()
